@@ -198,4 +198,55 @@ def orderFiles (t : GfaFile) (order : List String) (lm : Bool) : Except String (
   | .ok (ws, _) => .ok (ws.map (fun w => (w.name, orderFile (readGraph t lm) w)))
   | .error e => .error e
 
+/-! ## CSV rows, the `-complete` files and the validation of the request -/
+
+/-- the 25 default chromosomes (`DEFAULT_CHROMOSOME`) -/
+def defaultChromosomes : List String :=
+  (List.range 22).map (fun i => "chr" ++ toString (i + 1)) ++ ["chrX", "chrY", "chrM"]
+
+/-- the request as `run_order_gfa` resolves it: `--chromosome_order` split at ','; every given name must be a component name
+    (else exit 1); an empty option means the default order, accepted only when the component names are exactly the 25 defaults -/
+def resolveOrder (names : List String) (option : String) : Option (List String) :=
+  let req := option.splitOn ","
+  if req != [""] then (if req.all (fun c => names.contains c) then some req else none)
+  else if names.all (fun c => defaultChromosomes.contains c) && defaultChromosomes.all (fun c => names.contains c) then some defaultChromosomes
+  else none
+
+def csvHeader : List String := ["Name", "Color", "SN", "SO", "BO", "NO"]
+
+/-- one CSV row of a written chromosome: `node_name, color, SN, SO, BO, NO`; orange = scaffold node, blue = inner node of a
+    bubble, gray otherwise; SN / SO are the S line's tag values verbatim, `NA` when absent -/
+def csvRow (g : Graph) (w : Written) (v : V) : Option (List String) :=
+  match w.tags.find? (·.1 == v), g.find v with
+  | some x, some n =>
+    some [v, if w.aps.contains v then "orange" else if w.inside.contains v then "blue" else "gray",
+          (tagVal n.tags "SN").getD "NA", (tagVal n.tags "SO").getD "NA", toString x.2.1, toString x.2.2]
+  | _, _ => none
+
+/-- the CSV next to a chromosome file: header, then `for node_name in sorted(component_nodes)` -/
+def orderCsv (g : Graph) (w : Written) (comp : List V) : List (List String) :=
+  csvHeader :: (sortStrings comp).filterMap (csvRow g w)
+
+/-- without `--by-chrom`: all S lines of the chromosome files in request order, then all their L lines; the CSVs concatenated
+    (each with its header line) -/
+def completeGfa (fs : List GfaFile) : GfaFile := { segs := fs.flatMap (·.segs), links := fs.flatMap (·.links) }
+def completeCsv (cs : List (List (List String))) : List (List String) := cs.flatten
+
+/-- everything `run_order_gfa` writes for a resolved request: per chromosome (name, GFA file, CSV) in request order -/
+def orderOutputs (t : GfaFile) (order : List String) (lm : Bool) : Except String (List (String × GfaFile × List (List String))) :=
+  match orderRun t order lm with
+  | .ok (ws, _) =>
+    let g := readGraph t lm
+    .ok (ws.map (fun w => (w.name, orderFile g w, orderCsv g w (compOfName t lm w.name))))
+  | .error e => .error e
+
+/-- the component names `name_comps` found, and the whole command from the raw `--chromosome_order` option:
+    `none` = exit status 1 before anything is written -/
+def componentNames (t : GfaFile) (lm : Bool) : List String :=
+  let g := readGraph t lm
+  (nameComps (snOf t) (allComponents (Graph.nbFun g) (Graph.ids g))).map (·.1)
+
+def orderCommand (t : GfaFile) (option : String) (lm : Bool) : Option (Except String (List (String × GfaFile × List (List String)))) :=
+  (resolveOrder (componentNames t lm) option).map (fun order => orderOutputs t order lm)
+
 end Gaftools.Order
